@@ -13,6 +13,7 @@ import (
 	"sort"
 	"strconv"
 	"strings"
+	"time"
 
 	"github.com/prometheus/common/promslog"
 
@@ -91,6 +92,7 @@ type state struct {
 	liveF    *os.File
 	liveLR   *wlog.LiveReader
 	scratchN int
+	hung     bool
 }
 
 var lrMetrics = wlog.NewLiveReaderMetrics(nil)
@@ -111,11 +113,13 @@ func (s *state) ensureOpen() {
 }
 
 func (s *state) cleanup() {
-	if s.liveF != nil {
-		s.liveF.Close()
-	}
-	if s.w != nil && !s.closed {
-		s.w.Close()
+	if !s.hung { // a stuck op may hold the log's mutex; then only unlink the files
+		if s.liveF != nil {
+			s.liveF.Close()
+		}
+		if s.w != nil && !s.closed {
+			s.w.Close()
+		}
 	}
 	os.RemoveAll(s.root)
 }
@@ -477,15 +481,44 @@ func runCase(c *h.Ctx, ops []string) {
 	}
 	s := &state{root: root, dir: filepath.Join(root, "wal")}
 	defer s.cleanup()
+	hung := false
 	for _, op := range ops {
+		if hung {
+			c.Op(op, "abandoned")
+			continue
+		}
+		// A reader that stops making progress must not stall the run: every op gets a deadline, and a case
+		// whose op hangs is abandoned (the stuck goroutine is left behind; the process exits at the end).
+		res := make(chan string, 1)
+		go func() {
+			var out string
+			if p, v := h.Try(func() { out = s.exec(c, op) }); p {
+				out = "panic:" + strings.ReplaceAll(fmt.Sprint(v), " ", "_")
+			}
+			res <- out
+		}()
 		var out string
-		if p, v := h.Try(func() { out = s.exec(c, op) }); p {
-			out = "panic:" + strings.ReplaceAll(fmt.Sprint(v), " ", "_")
+		select {
+		case out = <-res:
+		case <-time.After(opDeadline):
+			out = "hang"
+			hung = true
+			c.Count("out:hang")
+		}
+		if strings.HasPrefix(out, "panic:") {
 			c.Count("out:panic")
 		}
 		c.Op(op, out)
 	}
+	s.hung = hung
+	if hung {
+		hungCases++
+	}
 }
+
+const opDeadline = 8 * time.Second
+
+var hungCases int
 
 // ---- generation-side bookkeeping (targets boundary sizes and offsets; not an oracle) ----
 
@@ -729,7 +762,7 @@ func main() {
 		}
 		return
 	}
-	for i := 0; i < c.N; i++ {
+	for i := 0; i < c.N && hungCases < 4; i++ {
 		mode := "none"
 		switch {
 		case i%8 == 5:
